@@ -1,6 +1,6 @@
 (* C16 - All members of a target group execute concurrently. *)
 From Coq Require Import List Arith.
-From MR Require Import Model.Sched Proofs.SchedProof.
+From MR Require Import Model.Sched Proofs.SchedProof Proofs.SchedLive.
 Import ListNotations.
 
 (* From the moment the scheduler reaches a group whose members are all defined and executable, scheduler steps
@@ -30,4 +30,23 @@ Example C16_nonvacuous :
   ph s' = Waiting /\ length (running s') = 4 /\ exited s' = [].
 Proof. vm_compute. auto. Qed.
 
+(* "... always completes": in ANY reachable state at the start of such a group there is a schedule in which the scheduler
+   first starts every member (no exit or reap before that - so members that wait for all the others to have started
+   are never asked to exit early) and then only child exits and reaps follow, after which the group is done: the
+   scheduler is waiting with nothing left to reap, at the same position, ready to move on *)
+Definition C16_completes_statement (run : plan -> bool -> (task -> nat) -> list choice -> st) : Prop :=
+  forall P fou code cs grp, let s := run P fou code cs in
+    cur_group P s = Some grp -> ph s = Spawning 0 -> failed s = false ->
+    (forall j, j < length grp -> nth_error grp j = Some Defined) ->
+    exists d, Forall exit_or_reap d /\
+      let s1 := run P fou code (cs ++ repeat SchedStep (S (length grp))) in
+      let s2 := run P fou code (cs ++ repeat SchedStep (S (length grp)) ++ d) in
+      (forall j, j < length grp -> In (Spawn (cpos s, gpos s, j)) (trace s1)) /\
+      exited s1 = exited s /\
+      ph s2 = Waiting /\ tracked s2 = [] /\ cpos s2 = cpos s /\ gpos s2 = gpos s.
+
+Theorem C16_completes_holds : C16_completes_statement run.
+Proof. intros P fou code cs grp. apply group_completes. Qed.
+
 Print Assumptions C16_holds.
+Print Assumptions C16_completes_holds.
